@@ -185,3 +185,40 @@ META = {
 }
 
 NOT_APPLICABLE = {}
+
+
+# Round 3 additions (DESIGN.md section 14): engines and oracles that were added to existing checks.
+def _add(pid, tech=None, level=None, rule=None, assume=None):
+    m = META[pid]
+    if tech:
+        m["technique"] += "; " + tech
+    if level:
+        m["level_text"] += " " + level
+    if rule:
+        m["rule"] += " " + rule
+    if assume:
+        m["assumptions"] = list(m["assumptions"]) + [assume]
+
+
+_add("C03", tech="weakly consistent iteration rules on concurrent traversals (no entry whose deadline had certainly passed when the traversal began)")
+_add("C05", tech="an engine with expiry and refresh together (stalled / failing reloads while deadlines pass)")
+_add("C09", tech="loaders can stall until the rest of the system is idle, so writes land while the loader body runs",
+     rule="Window positions counted: write while the loader runs / between loader return and installation / after the load finished.")
+_add("C10", tech="concurrent engine: loads, bulk loads and waiters on 1-3 keys under seeded schedules (linearizability with the rule that a waiter returns only after the load it joined has finished; BulkGet result rules; failing bulk loaders that return a partial map)",
+     level="A concurrent engine checks what Get / BulkGet return while other tasks load, write and invalidate the same keys.",
+     rule="Concurrent engine: one case = (configuration, per-task programs) x one schedule; non-trivial: a Get waited for another task's load or a BulkGet result was judged.")
+_add("C11", tech="concurrent reloads can stall (readers keep getting the old value while the reload is in flight); failing bulk reloads may return a partial map")
+_add("C13", tech="concurrent engine with expiry and refresh together (a reload in flight while the sweep reaches the entry)")
+_add("C14", tech="tiny programs (2-3 tasks x 1-3 operations) and the scripted 'wake duel' (a non-writer asks for a drain while a writer publishes an event) in a share of the runs")
+_add("C15", tech="cache-level concurrent engines: All / Keys / Values / Hottest / Coldest racing writers, removals and table resizes, judged by weakly-consistent-iteration rules over the recorded intervals (no duplicate, no value removed before the traversal began, no entry expired before it began, no key certainly absent, every key certainly present throughout is yielded); parallelism 1-16 incl. non powers of two, 256->512 bucket growth",
+     level="Two further engines run the whole cache: traversals race writers, removals, table growth and shrink (one without expiry, one with a write- or access-reset lifetime and the clock moving at barriers) and are judged by conservative interval rules.",
+     rule="Cache-level engines: one case = (configuration, prefill, per-task programs) x one schedule; non-trivial: at least one All / Keys / Values traversal ran concurrently with more than 2 context switches.")
+_add("C16", tech="cache-level concurrent engine with tiny write buffers: refused offers, writers that run the maintenance themselves; OnDeletion notifications of one task's explicit removals must arrive in that task's operation order under order-preserving executors",
+     level="A cache-level engine checks producer order end to end (rule event.producer-order) and that nothing is forgotten (audit at quiescence).",
+     rule="Cache-level engine: one case = (configuration, per-task programs) x one schedule; non-trivial: at least two notifications were order-checked.")
+_add("C18", tech="sketch driven with int, string, struct and float keys (+0.0 / -0.0); cache-level sequential matching check; concurrent decision-level check: maintenance passes bracketed through the eviction lock, estimate look-ups and eviction attempts observed through optional probe points inserted by the instrumenter",
+     level="A concurrent engine judges every displacement of a main-region entry at the moment it happens against the estimates the eviction loop looked up.",
+     rule="Concurrent engine: one case = (bounded configuration, per-task programs) x one schedule; non-trivial: at least one displacement decision was judged.",
+     assume="the concurrent admission rule relies on two optional observation points (entry of sketch.frequency and cache.evictNode) inserted into the scratch copy; a tree without those methods makes the rule silent (probe counters at zero), never alarmed")
+_add("C19", tech="slow streams: every Read of LoadCacheFrom may move the clock, so load time is an interval")
+_add("C07", tech="maxima beyond 32 bits and weights near 2^32")
